@@ -324,10 +324,10 @@ class Traced:
         return out
 
 
-def make_placement(r, ops, exp, kinds=("numpy",)):
+def make_placement(r, ops, exp, kinds=("numpy",), min_cap=0):
     """a fresh real buffer with a random history; appends the protocol lines; returns (traced buffer, ctx)"""
     xo = common.import_xobjects()
-    cap = r.choice([0, 8, 64, 256, 1024])
+    cap = max(r.choice([0, 8, 64, 256, 1024]), min_cap)
     al = r.choice([1, 2, 4, 8, 8, 16, 64])
     ctx = xo.ContextCpu()
     buf = ctx.new_buffer(cap)
@@ -492,7 +492,7 @@ def run_case(R, r, refs, mutate=True, forms=("py", "py", "nd", "ndobj")):
     exec_case(R, r, t, d, e, form, mutate)
 
 
-def exec_case(R, r, t, d, e, form, mutate=True):
+def exec_case(R, r, t, d, e, form, mutate=True, min_cap=0):
     xo = common.import_xobjects()
     cache = {}
     try:
@@ -509,7 +509,7 @@ def exec_case(R, r, t, d, e, form, mutate=True):
     vs, arg = vsexp(t, d, cache, form)
     ops, exp = [], []
     try:
-        tb, ctx_, live = make_placement(r, ops, exp)
+        tb, ctx_, live = make_placement(r, ops, exp, min_cap=min_cap)
     except Exception as ex:
         # the raw allocations of the placement already misbehave (a region beyond the capacity, ...): the allocator's properties
         # (C04/C12) are checked by their own component; this case cannot be built
@@ -955,6 +955,11 @@ def run_corpus(R):
          {"f1": 0, "f2": ("ARR", [2], [("CAP", 7), "abcdefgh"])}, "py"),
         # O-4: String(capacity) in reused memory
         (("struct", "S22", [("f0", ("string",)), ("f1", ("scalar", 7))]), {"f0": ("CAP", 10), "f1": 24784}, "py"),
+        # large capacities in reused memory (more room than any fixed block of zeros a writer might slice from): top level, next to
+        # another dynamic field, as array items
+        (("struct", "S24", [("f0", ("string",))]), {"f0": ("CAP", 400)}, "py"),
+        (("struct", "S23", [("f0", ("string",)), ("f1", ("array", ("scalar", 3), [None], [0]))]), {"f0": ("CAP", 300), "f1": ("ARR", [2], [1, 2])}, "py"),
+        (("array", ("string",), [None], [0]), ("ARR", [3], [("CAP", 1000), "ab", ("CAP", 257)]), "py"),
     ]
     for t, d, form in fixed:
         def exp_of(tt, dd):
@@ -971,7 +976,7 @@ def run_corpus(R):
             if tt[0] == "scalar" and T.scalars()[tt[1]]._dtype.kind == "f":
                 return float(dd)
             return dd
-        exec_case(R, r, t, d, exp_of(t, d), form, mutate=False)
+        exec_case(R, r, t, d, exp_of(t, d), form, mutate=False, min_cap=4096 if t[1] in ("S23", "S24") or "1000" in repr(d) else 0)
 
 
 _rs_uid = itertools.count()
